@@ -252,6 +252,8 @@ class Polyhedron(Shape3D):
 
         self._faces = [np.asarray(list(f)) for f in new_faces]
         self.sort_faces()
+        # The edge list is memoized and depends on the faces.
+        self.__dict__.pop("edges", None)
 
     @property
     def neighbors(self):
